@@ -47,6 +47,24 @@ func vBufCmp(name string) func(a, b []byte) bool {
 }
 
 func init() {
+	// capacity arithmetic of Buffer.Grow at sizes the byte-level component cannot materialise (growth steps are clamped
+	// to 1 GiB): white box, a small calloc buffer whose recorded capacity is set to <cur>; Grow(n) then allocates
+	// (virtual, untouched) memory of the new capacity.  op: gb <cur> <off> <n>  ->  new capacity
+	verifComponents["growcap"] = func(args []string) func(op []string) string {
+		return func(op []string) string {
+			if op[0] != "gb" {
+				return "ok"
+			}
+			cur, off, n := int(vi(op[1])), uint64(vi(op[2])), int(vi(op[3]))
+			b := NewBuffer(64, "verif")
+			b.curSz = cur
+			b.offset = off
+			b.Grow(n)
+			res := fmt.Sprintf("%d %d", b.curSz, len(b.buf))
+			b.buf = nil
+			return res
+		}
+	}
 	verifComponents["buffer"] = func(args []string) func(op []string) string {
 		capacity, auto, maxsz := int(vi(args[1])), int(vi(args[2])), int(vi(args[3]))
 		var b *Buffer
